@@ -17,9 +17,11 @@ HEADER = ('From Coq Require Import List ZArith Bool String.\nImport ListNotation
           'From SDC Require Import Eventing.Gen_Consts Eventing.Model.\nOpen Scope Z_scope.')
 DEPS = ['Eventing/Gen_Consts.vo', 'Eventing/Model.vo']
 
-KINDS = {'metric': ['EpisodicMetricReport'], 'alert': ['EpisodicAlertReport'], 'component': ['EpisodicComponentReport'],
-         'operational': ['EpisodicOperationalStateReport'], 'context': ['EpisodicContextReport'],
-         'waveform': ['WaveformStream'], 'descr': ['DescriptionModificationReport', 'EpisodicMetricReport']}
+KINDS = {'metric': ['StateEventService/EpisodicMetricReport'], 'alert': ['StateEventService/EpisodicAlertReport'],
+         'component': ['StateEventService/EpisodicComponentReport'],
+         'operational': ['StateEventService/EpisodicOperationalStateReport'],
+         'context': ['ContextService/EpisodicContextReport'], 'waveform': ['WaveformService/WaveformStream'],
+         'descr': ['DescriptionEventService/DescriptionModificationReport', 'StateEventService/EpisodicMetricReport']}
 BOGUS = ['wrong', 'none', 'extra', 'other_service', 'upper']
 OUT_LIT = {'ok': 'OOk', 'refuse': 'ORefuse', 'timeout': 'OTimeout'}
 BAD = 'RSub (-1) (-1)'
@@ -527,7 +529,7 @@ def oracle_e2e(case, trace):
         if kind not in ('tx', 'stop') and e['handed']:
             return k, 'delivery', f'sent-by-{kind}', f'{kind} step handed {e["handed"]}'
         if kind == 'tx':
-            want = sorted(KINDS[step[1]])
+            want = sorted(x.rsplit('/', 1)[-1] for x in KINDS[step[1]])
             for i in range(n):
                 got = sorted(h[2] for h in per[i] if h[1] == 'notify')
                 delta = e['counters'][i] - prev['counters'][i]
@@ -586,6 +588,17 @@ def oracle_e2e(case, trace):
 
 
 # ----------------------------------------------------------------------------- orchestration
+def consts_from_generated():
+    import re
+    from lib import COQ
+    txt = (COQ / 'Eventing' / 'Gen_Consts.v').read_text()
+
+    def g(name):
+        return int(re.search(name + r' : Z := \(?(-?\d+)\)?\.', txt).group(1))
+    return {'actions': re.findall(r'^\s+"([^"]+)";?\s*$', txt, re.M), 'max_err': g('MAX_NOTIFY_ERRORS'),
+            'maxd_ticks': g('DEFAULT_MAX_SUBSCR_DURATION_TICKS'), 'grace_ticks': g('HOUSEKEEPING_GRACE_TICKS')}
+
+
 def run_impl(ctx, cases, workers=4):
     chunks = [cases[i::workers] for i in range(workers)]
 
@@ -630,14 +643,16 @@ def run(ctx):
     ctx.regenerate('gen_eventing_consts', 'Eventing/Gen_Consts.v')
     consts = ctx.impl('gen_eventing_consts', {})
     if consts.get('_crash') or 'actions' not in consts:
-        return ctx.finish('translator failed', [], [])
+        # translator stopped (already recorded as broken): keep searching for a failing input with the constants
+        # of the last generated file
+        consts = consts_from_generated()
     actions = consts['actions']
     proof_ok = ctx.prove()
     if not proof_ok:
         ctx.broken('theorem', 'Props/C08.v', ctx.proof_error)
     hist = Counter()
-    plan = [('life', ctx.n(260, 2000), ctx.n(16, 40)), ('malformed', ctx.n(110, 800), ctx.n(16, 40)),
-            ('decimal', ctx.n(60, 500), ctx.n(16, 40))]
+    plan = [('life', ctx.n(220, 2000), ctx.n(16, 40)), ('malformed', ctx.n(90, 800), ctx.n(16, 40)),
+            ('decimal', ctx.n(50, 500), ctx.n(16, 40))]
     import time as _time
     for stream, ncases, max_ops in plan:
         t_0 = _time.time()
@@ -658,7 +673,7 @@ def run(ctx):
                           'oracle': {'verdict': 'fail', 'clause': clause, 'detail': detail, 'text': text}})
         if stream != 'decimal':
             lits = [(lit_case(c, actions), lit_trace(tr, actions)) for c, tr in zip(cases, traces)]
-            mism, err = ctx.coq_mism(stream, HEADER, 'trace_eqb', 'run_case', lits, shard=ctx.n(40, 100), deps=DEPS)
+            mism, err = ctx.coq_mism(stream, HEADER, 'trace_eqb', 'run_case', lits, shard=ctx.n(30, 100), deps=DEPS)
             if err:
                 ctx.broken('correspondence', f'{stream} (coq evaluation)', err)
             if not proof_ok and not err:
@@ -683,7 +698,7 @@ def run(ctx):
             ctx.sample({'stream': stream, 'case': cases[0],
                         'trace': [[e['resp'], [h['m'] for h in e['handed']]] for e in traces[0]]})
     t_0 = _time.time()
-    e2e = [gen_e2e(ctx.rng, ctx.n(10, 20)) for _ in range(ctx.n(24, 200))]
+    e2e = [gen_e2e(ctx.rng, ctx.n(10, 20)) for _ in range(ctx.n(20, 200))]
     traces, crash = run_impl(ctx, e2e, workers=ctx.n(6, 8))
     if crash:
         ctx.broken('correspondence', 'e2e', crash.get('stderr', crash))
@@ -730,6 +745,8 @@ def run(ctx):
 
 def replay(ctx, rep):
     consts = ctx.impl('gen_eventing_consts', {})
+    if consts.get('_crash') or 'actions' not in consts:
+        consts = consts_from_generated()
     actions = consts['actions']
     case = rep['case']
     traces, crash = run_impl(ctx, [case], workers=1)
